@@ -152,6 +152,12 @@ struct Plan {
     /// the kernel's thread-id counter wraps in the middle of thread creation: later threads have
     /// smaller ids than earlier ones
     wrap: bool,
+    /// the thread-group leader has exited (it stays in the task directory as a zombie that nobody
+    /// can attach to); every other thread is alive and attachable
+    leader_gone: bool,
+    /// one ordinary thread - created before all the sentinels - is held by a foreign tracer for the
+    /// whole dump: it cannot be attached to, every thread enumerated after it can
+    held: bool,
 }
 
 pub fn run(rep: &mut Report, thorough: bool) {
@@ -175,20 +181,26 @@ pub fn run(rep: &mut Report, thorough: bool) {
                 storm: false,
                 odd_name: false,
                 wrap: false,
+                leader_gone: false,
+                held: false,
             });
         }
     }
     for k in 0..(if thorough { 60 } else { 6 }) {
-        plans.push(Plan { n: [5usize, 20, 33][k % 3], exiters: 0, exit_mode: 0, delay_at: None, null_sp: false, storm: true, odd_name: false, wrap: false });
+        plans.push(Plan { n: [5usize, 20, 33][k % 3], exiters: 0, exit_mode: 0, delay_at: None, null_sp: false, storm: true, odd_name: false, wrap: false, leader_gone: false, held: false });
     }
     for k in 0..(if thorough { 20 } else { 3 }) {
-        plans.push(Plan { n: [3usize, 5, 21][k % 3], exiters: 0, exit_mode: 0, delay_at: None, null_sp: false, storm: false, odd_name: true, wrap: false });
+        plans.push(Plan { n: [3usize, 5, 21][k % 3], exiters: 0, exit_mode: 0, delay_at: None, null_sp: false, storm: false, odd_name: true, wrap: false, leader_gone: false, held: false });
     }
     for k in 0..(if thorough { 4 } else { 1 }) {
-        plans.push(Plan { n: 6 + k, exiters: 0, exit_mode: 0, delay_at: None, null_sp: false, storm: false, odd_name: false, wrap: true });
+        plans.push(Plan { n: 6 + k, exiters: 0, exit_mode: 0, delay_at: None, null_sp: false, storm: false, odd_name: false, wrap: true, leader_gone: false, held: false });
+    }
+    for k in 0..(if thorough { 24 } else { 4 }) {
+        plans.push(Plan { n: [4usize, 7, 22][k % 3], exiters: 0, exit_mode: 0, delay_at: None, null_sp: false, storm: false, odd_name: false, wrap: false, leader_gone: k % 2 == 0, held: k % 2 == 1 || k % 4 == 2 });
     }
     for plan in plans {
         let mut b = Builder::new();
+        let held_idx = if plan.held { Some(b.thread(ThreadKind::Sleeper, Some(b"held".to_vec()))) } else { None };
         let n_sent = plan.n.saturating_sub(1).saturating_sub(plan.exiters).saturating_sub(plan.null_sp as usize);
         let mut spinners = 0;
         let mut spinner3: Option<usize> = None;
@@ -237,6 +249,7 @@ pub fn run(rep: &mut Report, thorough: bool) {
         if plan.wrap {
             b.spec.wrap_ids_before_thread = Some(b.spec.threads.len() / 2);
         }
+        b.spec.leader_exit = plan.leader_gone;
         let t = match Target::spawn(b.spec.clone(), &b.opts) {
             Ok(t) => Arc::new(t),
             Err(e) => {
@@ -245,6 +258,32 @@ pub fn run(rep: &mut Report, thorough: bool) {
             }
         };
         let mut o = DumpOpts::new(t.pid, t.pid);
+        if plan.leader_gone {
+            let t0 = std::time::Instant::now();
+            while t.thread_status(t.pid).map(|s| s.0) != Some('Z') && t0.elapsed().as_secs() < 20 {
+                std::thread::sleep(std::time::Duration::from_millis(1));
+            }
+            if t.thread_status(t.pid).map(|s| s.0) != Some('Z') {
+                rep.inconclusive("the leader of an exited-leader target never became a zombie".into());
+                continue;
+            }
+            o = DumpOpts::new(t.pid, t.manifest.tids[b.sentinels[0].index]);
+            o.stop_timeout_ms = Some(30);
+            rep.count("targets_whose_leader_has_exited", 1);
+        }
+        let _holder = match held_idx {
+            Some(i) => match crate::util::Holder::hold(t.manifest.tids[i]) {
+                Ok(h) => {
+                    rep.count("targets_with_a_thread_held_by_a_foreign_tracer", 1);
+                    Some(h)
+                }
+                Err(e) => {
+                    rep.inconclusive(e);
+                    continue;
+                }
+            },
+            None => None,
+        };
         if let Some(si) = spinner3 {
             let s = b.truth(si).unwrap();
             o.app_memory.push((s.app_word, 8));
@@ -356,7 +395,7 @@ pub fn run(rep: &mut Report, thorough: bool) {
         drop(_g);
         let evs = events.lock().unwrap().clone();
         let desc = fnv(format!("{plan:?}/{:?}", b.sentinels.iter().map(|s| s.regs.gpr[0]).collect::<Vec<_>>()).as_bytes());
-        let case = json!({"threads": plan.n, "exiters": plan.exiters, "exit_mode": plan.exit_mode, "delay_after_flush": plan.delay_at, "null_sp_thread": plan.null_sp, "hook_events": evs});
+        let case = json!({"threads": plan.n, "leader_exited": plan.leader_gone, "thread_held_by_foreign_tracer": plan.held, "exiters": plan.exiters, "exit_mode": plan.exit_mode, "delay_after_flush": plan.delay_at, "null_sp_thread": plan.null_sp, "hook_events": evs});
         match out {
             Outcome::Ok(img) => {
                 let im = image::decode(&img);
@@ -364,7 +403,7 @@ pub fn run(rep: &mut Report, thorough: bool) {
                 let soft = im.soft_errors().unwrap_or(serde_json::Value::Null);
                 let mut compared_ctx = 0;
                 // completeness / uniqueness
-                let mut expected: Vec<i32> = vec![t.pid];
+                let mut expected: Vec<i32> = if plan.leader_gone { Vec::new() } else { vec![t.pid] };
                 for s in &b.sentinels {
                     if Some(s.index) != null_idx {
                         expected.push(t.manifest.tids[s.index]);
@@ -452,7 +491,10 @@ pub fn run(rep: &mut Report, thorough: bool) {
                                     );
                                 }
                             }
-                            _ => rep.violation("C04 snapshot triple not found in the image", json!({"case": case, "slot_found": slot.is_some(), "app_found": app.is_some()})),
+                            // (an exited leader's /proc/<pid>/maps reads empty: the writer knows no
+                            // mapping, so it records no stack bytes - nothing to compare the registers with)
+                            (None, _) if plan.leader_gone && th.stack_size == 0 => rep.count("exited_leader_targets_without_stack_bytes(no snapshot verdict)", 1),
+                            _ => rep.violation("C04 snapshot triple not found in the image", json!({"case": case, "slot_found": slot.is_some(), "app_found": app.is_some(), "rsp": format!("{:#x}", ctx.rsp()), "stack": format!("{:#x}+{:#x}", th.stack_start, th.stack_size), "soft_errors": soft})),
                         }
                     }
                 }
@@ -484,4 +526,6 @@ pub fn run(rep: &mut Report, thorough: bool) {
     rep.require("null_sp_threads_checked", 1);
     rep.require("odd_sp_threads", 3);
     rep.require("dumps_under_tracer_storm", 3);
+    rep.require("targets_whose_leader_has_exited", 2);
+    rep.require("targets_with_a_thread_held_by_a_foreign_tracer", 2);
 }
